@@ -791,3 +791,133 @@ func c04PathInvariant(ctx *Ctx, r *Report) {
 	r.Count("ast.Path literals", n)
 	r.Floor("ast.Path literals", 3)
 }
+
+// c04ReflectIndexes: reflect.Value.Index(k) panics like x[k] does ("reflect: slice index out of range"): a constant index
+// must sit under a test of the same value's Len(). Functions installed in a template.FuncMap are exempt (text/template
+// turns their panics into errors — assumption of C04).
+func c04ReflectIndexes(ctx *Ctx, r *Report) {
+	n := 0
+	ctx.AllFuncDecls(func(p *packages.Package, fd *ast.FuncDecl, obj *types.Func) {
+		if fd.Body == nil || strings.HasPrefix(ctx.RelPkg(p.PkgPath), "cmd/") {
+			return
+		}
+		info := p.TypesInfo
+		parents := parentMap(fd)
+		k := 0
+		ast.Inspect(fd.Body, func(m ast.Node) bool {
+			c, ok := m.(*ast.CallExpr)
+			if !ok || len(c.Args) != 1 {
+				return true
+			}
+			fn := callee(info, c)
+			if fn == nil || fn.FullName() != "(reflect.Value).Index" {
+				return true
+			}
+			if tv, ok := info.Types[c.Args[0]]; !ok || tv.Value == nil {
+				return true // computed index: not decided (stated in NotCovered)
+			}
+			sel := c.Fun.(*ast.SelectorExpr)
+			n++
+			k++
+			recv := exprString(sel.X)
+			why := ""
+			if lit := enclosingFuncLit(parents, c); lit != nil {
+				// a closure stored in a FuncMap literal
+				for a := parents[ast.Node(lit)]; a != nil; a = parents[a] {
+					if cl, ok := a.(*ast.CompositeLit); ok {
+						if t := info.TypeOf(cl); t != nil && strings.HasSuffix(t.String(), "template.FuncMap") {
+							why = "template function: text/template converts its panic into an error"
+						}
+					}
+				}
+			}
+			if why == "" {
+				for _, ce := range enclosingConds(parents, c) {
+					if !ce.inElse && strings.Contains(exprString(ce.stmt.Cond), recv+".Len()") {
+						why = "under " + exprString(ce.stmt.Cond)
+					}
+				}
+			}
+			r.Check(why != "", "flow/guarded-reflect-index", fmt.Sprintf("%s %s.Index(%s) #%d", ctx.FuncName(obj), recv, exprString(c.Args[0]), k), c.Pos(), why,
+				fmt.Sprintf("%s calls %s.Index(%s) without a test of %s.Len(): an empty list (a default of `[]`) panics with \"reflect: slice index out of range\" — in plain Go code, nothing recovers it", ctx.FuncName(obj), recv, exprString(c.Args[0]), recv))
+			return true
+		})
+	})
+	r.Count("constant reflect.Value.Index calls", n)
+	r.Floor("constant reflect.Value.Index calls", 1)
+}
+
+// c04OpenAPINilSchemas: with `no_validate: true` kin-openapi hands over documents with missing parts: `items` absent,
+// null entries, references that were never resolved (SchemaRef.Value == nil). Every schema goes through the funnel
+// walkSchemaRef, which must test its parameter and its Value against nil before using them; schemaComments, which is
+// called on `.Value` of references (never resolved for alias cycles), must test its parameter.
+func c04OpenAPINilSchemas(ctx *Ctx, r *Report) {
+	p := ctx.Pkg("internal/openapi")
+	if p == nil {
+		r.Undecided("anchor lost: internal/openapi")
+		return
+	}
+	info := p.TypesInfo
+	type want struct {
+		fn    string
+		paths []string // "" = the parameter itself, ".Value" = its Value
+	}
+	for _, w := range []want{{"walkSchemaRef", []string{"", ".Value"}}, {"schemaComments", []string{""}}} {
+		var fd *ast.FuncDecl
+		for _, file := range p.Syntax {
+			for _, d := range file.Decls {
+				if x, ok := d.(*ast.FuncDecl); ok && x.Name.Name == w.fn {
+					fd = x
+				}
+			}
+		}
+		if fd == nil || fd.Type.Params.NumFields() == 0 {
+			r.Undecided("anchor lost: openapi.%s", w.fn)
+			continue
+		}
+		var param *ast.Ident
+		for _, f := range fd.Type.Params.List {
+			for _, nm := range f.Names {
+				if _, ok := info.TypeOf(nm).(*types.Pointer); ok {
+					param = nm
+				}
+			}
+		}
+		if param == nil {
+			r.Undecided("anchor lost: pointer parameter of openapi.%s", w.fn)
+			continue
+		}
+		for _, suffix := range w.paths {
+			target := param.Name + suffix
+			// position of the first `target == nil` exit guard, and of the first use through target
+			guardAt, useAt := token.NoPos, token.NoPos
+			ast.Inspect(fd.Body, func(m ast.Node) bool {
+				switch x := m.(type) {
+				case *ast.IfStmt:
+					if be, ok := ast.Unparen(x.Cond).(*ast.BinaryExpr); ok && be.Op == token.EQL && exprString(be.X) == target && isNilIdent(info, be.Y) && endsInExitOrPanic(info, x.Body) && !guardAt.IsValid() {
+						guardAt = x.Pos()
+					}
+				case *ast.SelectorExpr:
+					if exprString(x.X) == target && !useAt.IsValid() {
+						useAt = x.Pos()
+					}
+				case *ast.CallExpr:
+					// handing target.<…> / target to a function that dereferences it counts as a use for ".Value"
+					if suffix != "" {
+						for _, a := range x.Args {
+							if exprString(a) == target && !useAt.IsValid() {
+								useAt = a.Pos()
+							}
+						}
+					}
+				}
+				return true
+			})
+			ok := guardAt.IsValid() && (!useAt.IsValid() || guardAt < useAt)
+			r.Count("nil obligations on the OpenAPI schema funnel", 1)
+			r.Check(ok, "frontier/openapi-nil-schema", fmt.Sprintf("openapi.%s tests %s", w.fn, target), fd.Pos(), "tested against nil before its first use",
+				fmt.Sprintf("openapi.%s uses %s without an earlier `if %s == nil { leave }`: with no_validate the library hands over missing schemas (array without items, null entries, unresolved references) — nil pointer dereference", w.fn, target, target))
+		}
+	}
+	r.Floor("nil obligations on the OpenAPI schema funnel", 3)
+}
